@@ -252,8 +252,14 @@ auto harris_michael_list_based_set<Key, Policies...>::iterator::operator++() -> 
   assert(info.cur.get() != nullptr);
   auto next = info.cur->next.load(std::memory_order_relaxed);
   guard_ptr tmp_guard;
+  // If cur is not marked, but its next pointer changes concurrently (a successor gets inserted or
+  // removed), acquire_if_equal fails. In that case we must not fall back to find - cur is still part
+  // of the list and find would simply return cur again - but retry with the new next pointer.
   // (1) - this acquire-load synchronizes-with the release-CAS (7, 8, 10, 13)
-  if (next.mark() == 0 && tmp_guard.acquire_if_equal(info.cur->next, next, std::memory_order_acquire)) {
+  while (next.mark() == 0 && !tmp_guard.acquire_if_equal(info.cur->next, next, std::memory_order_acquire)) {
+    next = info.cur->next.load(std::memory_order_relaxed);
+  }
+  if (next.mark() == 0) {
     info.prev = &info.cur->next;
     info.save = std::move(info.cur);
     info.cur = std::move(tmp_guard);
